@@ -20,7 +20,8 @@ LEVEL_TEXT = ('For 8 formats (Motorola S, Intel 8/16/32, MOS, Tektronix, Atmel g
               'option set within 1 (quick) / 2 (thorough) deviations over -r/-R/-a/-l/-M/+5/-i/-m/-e/-avrlen, the rebuilt p2hex output is parsed by '
               'independent decoders that verify every count and checksum field; the decoded map, entry address, line length, S-record grouping and '
               'extension records are compared with the model.'
-              ' Records with 4 bytes per address are converted under the three Intel formats with automatic and explicit ranges.')
+              ' Records with 4 bytes per address are converted under the three Intel formats with automatic and explicit ranges.'
+              ' Four-byte address units with line lengths that are not a multiple of the unit and with -m 1, and the data segment selected with -segment together with -r/-a/-R, are enumerated.')
 LEVEL_NOTE = ('Trusted: the decoders in mc/fmt/hexfmt.py written from the public format definitions (self-tested on hand-computed vectors). '
               'A missing overflow warning is a violation only when the final address does not fit the format; superfluous warnings are not.')
 RULE = 'layout x format x option set; non-trivial = all'
